@@ -19,11 +19,11 @@ PLAN = dict(
                 "and the over-rejection direction is covered by the metamorphic unknown-section relation."),
     level_note=NOTE_BASE,
     runs=[
-        dict(name="sweep", run="^(TestExhaustiveTruncFlip|TestCorpus)$", timeout=(300, 1800)),
-        dict(name="structured", run="^TestPropStructured$", checks=(4000, 100000), shards=(2, 12), timeout=(300, 1800)),
-        dict(name="unknown", run="^TestPropUnknownSection$", checks=(1500, 30000), shards=(1, 4), timeout=(300, 1800)),
-        dict(name="bytes", run="^TestPropBytes$", checks=(3000, 100000), shards=(1, 8), timeout=(300, 1800)),
-        dict(name="fuzz", fuzz="FuzzRead", fuzztime=180, timeout=(0, 400)),
+        dict(name="sweep", run="^(TestExhaustiveTruncFlip|TestCorpus)$", timeout=(300, 3600)),
+        dict(name="structured", run="^TestPropStructured$", checks=(4000, 500000), shards=(2, 16), timeout=(300, 3600)),
+        dict(name="unknown", run="^TestPropUnknownSection$", checks=(1500, 150000), shards=(1, 4), timeout=(300, 3600)),
+        dict(name="bytes", run="^TestPropBytes$", checks=(3000, 500000), shards=(1, 16), timeout=(300, 3600)),
+        dict(name="fuzz", fuzz="FuzzRead", fuzztime=180, timeout=(0, 3600)),
     ],
     require=[("structured", "outcome:rejected"), ("structured", "outcome:accepted-equal"), ("structured", "patched:index[].off[]"), ("structured", "patched:sl[].len"),
              ("structured", "truncated"), ("unknown-section", "insert-at-0")],
